@@ -167,7 +167,7 @@ def systematic(tier: str = "thorough") -> list[dict]:
     for (ti, (spec, shapes)), pos, f1, f2 in itertools.product(
             enumerate(TEMPLATES), range(3), FORMS,
             ["leaf", "add", "c_mul", "c_div", "div_c", "sub"] if tier == "thorough"
-            else ["leaf", "c_div", "add"]):
+            else ["leaf", "c_div"]):
         if pos >= len(shapes):
             continue
         if f2 != "leaf" and f1 in ("leaf",):
@@ -190,14 +190,16 @@ def systematic(tier: str = "thorough") -> list[dict]:
     return progs
 
 
-def shared_operand() -> list[dict]:
+def shared_operand(tier: str = "thorough") -> list[dict]:
     """ONE sub-expression object is an operand of TWO einsums (same template,
     different other operands): E(A.., s) + E(B.., s), and both as separate
     outputs -- what a rewrite cache keyed too coarsely would confuse."""
     progs = []
     rng = np.random.default_rng(1)
     for (ti, (spec, shapes)), pos, f1 in itertools.product(
-            enumerate(TEMPLATES), range(3), ["add", "sub", "c_mul", "div_c", "neg", "mul_c"]):
+            enumerate(TEMPLATES), range(3),
+            ["add", "sub", "c_mul", "div_c", "neg", "mul_c"] if tier == "thorough"
+            else ["add", "c_mul", "div_c"]):
         if pos >= len(shapes) or len(shapes) < 2:
             continue
         b = Builder(rng)
@@ -399,8 +401,8 @@ def main(tier: str, only: list[dict] | None = None) -> int:
     if only is not None:
         progs = only
     else:
-        progs = systematic(tier) + shared_operand() + random_nested(
-            rng, 80 if tier == "quick" else 2500)
+        progs = systematic(tier) + shared_operand(tier) + random_nested(
+            rng, 60 if tier == "quick" else 2500)
         design_check(run, tier)
     n = NCPU * 4
     with mp.Pool(NCPU) as pool:
